@@ -613,6 +613,9 @@ PATCH("c02-benign-copy-setserializer", "C02", "c09-copy-setserializer-benign.dif
 PATCH("c03-benign-hex4-fastpath", "C03", "c03-hex4-fastpath-benign.diff", expect="silent")
 PATCH("c01-benign-hex4-fastpath", "C01", "c03-hex4-fastpath-benign.diff", expect="silent")
 PATCH("c04-benign-hex4-fastpath", "C04", "c03-hex4-fastpath-benign.diff", expect="silent")
+# S-c10i with the invariant it assumes established by every producer (the increment re-tags small results): the getter's
+# shortcut is then unreachable with a small value, and C10.R9 - which collects the states the producers make - must stay silent
+PATCH("c10-benign-canonical-uint", "C10", "c10-canonical-uint-benign.diff", expect="silent")
 M("c11-raw-len-positive-test", "C11", "json_object.c",
   "\tcase json_type_string: return (JC_STRING_C(jso)->len != 0);", "\tcase json_type_string: return (JC_STRING_C(jso)->len > 0);", needle="C11.R7")
 M("c11-benign-len-zero-test", "C11", "json_object.c",
